@@ -74,7 +74,7 @@ META = {
     "level_note": "Decides, on the listed paths, that the returned closest points lie on their objects, that the distance is the distance between the "
                   "returned points and that the first-order optimality identities hold; nothing about floating point or tolerances.",
 }
-MIN_INSTANCES = {"R1": 12, "R2": 30, "R3": 100, "R4": 20, "R5": 14, "R6": 1, "R7": 9}
+MIN_INSTANCES = {"R1": 12, "R2": 30, "R3": 100, "R4": 20, "R5": 14, "R6": 1, "R7": 7}
 
 
 # ------------------------------------------------------------------------------------------------------
